@@ -118,11 +118,18 @@ def load_known():
     return json.load(open(p)).get('findings', [])
 
 
-def match_known(known, pid, case_name, label):
+def match_known(known, pid, case_name, label, source='symbolic', detail=''):
+    """a known finding is identified by property + case (regex) + obligation label (regex) + where it was observed
+    (source: 'symbolic' = solver counterexample replayed, 'sample' = concrete float sample on the real library) and
+    optionally a regex on the failure detail; anything else is still reported"""
     for k in known:
         if k.get('status') != 'known' or k.get('property') != pid:
             continue
+        if k.get('source', 'symbolic') != source:
+            continue
         if re.fullmatch(k['case'], case_name) and re.fullmatch(k['label'], label):
+            if k.get('detail') and not re.search(k['detail'], detail or ''):
+                continue
             return k
     return None
 
@@ -220,13 +227,45 @@ def main(argv=None):
                 rec = dict(case=r['name'], label=o['label'], model=o['model'], detail=o.get('detail'),
                            path_conditions=o.get('path_conditions'), replay_status=status, replay_failures=fails)
                 if status == 'reproduced':
-                    k = match_known(known, pid, r['name'], o['label'])
+                    k = match_known(known, pid, r['name'], o['label'], 'symbolic', json.dumps(fails))
                     if k is not None:
                         known_hits.append((k, rec))
                     else:
                         violations.append(rec)
                 else:
                     spurious.append(rec)
+
+    # differential concretisation (DESIGN 4): the same harnesses on random concrete inputs against the real,
+    # compiled library; validates oracle + encoder, and any failure is a real violation with concrete inputs
+    n_samples = int(os.environ.get('VERIF_SAMPLES', '3' if tier == 'quick' else '10'))
+    sample_stats = dict(run=0, passed=0, rejected=0, failed=0)
+    if n_samples > 0 and any(c.engine == 'symnp' for c in cases):
+        try:
+            p = subprocess.run([sys.executable, '-m', 'vt.replay', '--sample', pid, tier, str(seed), str(n_samples)] +
+                               ([a.only] if a.only else []), cwd=ROOT, capture_output=True, text=True, timeout=3600,
+                               env=dict(os.environ, PYTHONPATH=ROOT + os.pathsep + REPO,
+                                        NUMBA_DISABLE_PERFORMANCE_WARNINGS='1'))
+            recs = None
+            for line in p.stdout.splitlines():
+                if line.startswith('SAMPLE-RESULT '):
+                    recs = json.loads(line[len('SAMPLE-RESULT '):])
+            if recs is None:
+                harness_errors.append(dict(case='concrete-samples', error=(p.stderr or p.stdout)[-1500:]))
+                recs = []
+            for rec in recs:
+                sample_stats['run'] += 1
+                sample_stats[rec['status']] += 1
+                if rec['status'] == 'failed':
+                    lab = rec['failures'][0]['label'] if rec.get('failures') else 'concrete sample'
+                    v = dict(case=rec['case'], label=lab, model=rec.get('values', {}), detail='random concrete sample',
+                             path_conditions=None, replay_status='reproduced', replay_failures=rec.get('failures'))
+                    k = match_known(known, pid, rec['case'], lab, 'sample', json.dumps(rec.get('failures')))
+                    if k is not None:
+                        known_hits.append((k, v))
+                    else:
+                        violations.append(v)
+        except subprocess.TimeoutExpired:
+            harness_errors.append(dict(case='concrete-samples', error='timeout'))
 
     # de-duplicate violations per (case,label)
     seen = set()
@@ -264,7 +303,9 @@ def main(argv=None):
             'every division by a non-constant denominator assumes the denominator non-zero',
             'stubs used on this run: %s' % (', '.join(sorted(stubs)) or 'none')],
         coverage=dict(
-            states=max(paths, 0), transitions=max(decisions, 0), traces_validated_against_impl=replays,
+            states=max(paths, 0), transitions=max(decisions, 0),
+            traces_validated_against_impl=replays + sample_stats['passed'] + sample_stats['failed'],
+            concrete_samples=sample_stats,
             evaluations=max(queries, n_oblig), distinct_nontrivial=len(distinct_obl),
             rule='one case per harness instantiation; states = feasible paths of the real source explored; '
                  'transitions = symbolic branch decisions; evaluations = solver queries; distinct_nontrivial '
